@@ -12,15 +12,24 @@ import (
 type FaultSpec struct {
 	Kind string `json:"kind"` // crash-after-write | error-before-call | error-after-write | conflict-before-write
 	At   int    `json:"at"`   // 1-based index among controller writes (write kinds) or controller calls (error-before-call)
+	// Target ("<Kind>/<verb>", e.g. "Deployment/update") restricts the count to matching calls
+	// (kind error-on-target: the At-th matching controller call fails before it is executed)
+	Target string `json:"target,omitempty"`
 }
 
-func (f FaultSpec) String() string { return fmt.Sprintf("%s@%d", f.Kind, f.At) }
+func (f FaultSpec) String() string {
+	if f.Target != "" {
+		return fmt.Sprintf("%s(%s)@%d", f.Kind, f.Target, f.At)
+	}
+	return fmt.Sprintf("%s@%d", f.Kind, f.At)
+}
 
 // SingleFaults injects each listed fault once.
 type SingleFaults struct {
 	Specs  []FaultSpec
 	writes int
 	calls  int
+	target map[int]int
 	fired  map[int]bool
 	Fired  int
 }
@@ -39,6 +48,18 @@ func (s *SingleFaults) Before(op OpInfo) error {
 			continue
 		}
 		switch f.Kind {
+		case "error-on-target":
+			if f.Target == op.GVK.Kind+"/"+op.Verb {
+				if s.target == nil {
+					s.target = map[int]int{}
+				}
+				s.target[i]++
+				if s.target[i] == f.At {
+					s.fired[i] = true
+					s.Fired++
+					return apierrors.NewServiceUnavailable("verif: injected API error")
+				}
+			}
 		case "error-before-call":
 			if s.calls == f.At {
 				s.fired[i] = true
